@@ -229,6 +229,7 @@ def gen_cases(rng, tier, ctx):
     cases.extend(gen_round3(rng, tier, n))
     cases.extend(gen_round4(rng, tier, n))
     cases.extend(gen_round5(rng, tier, n))
+    cases.extend(gen_round6(rng, tier, n))
     return cases
 
 
@@ -440,6 +441,31 @@ def gen_round5(rng, tier, n):
                     if not swap and (ty == 'int' or (ty == 'float' and F(float(ex)) != ex)):
                         continue
                     cases.append({'kind': 'powni', 'a': str(a), 'e': str(ex), 'ty': ty, 'swap': swap})
+    return cases
+
+
+def gen_round6(rng, tier, n):
+    """Tolerance mode with results whose denominator is above 400: since round 6 check_spec decides their minimality with the
+    Farey-neighbour criterion (Spec.farey_minimal, proved sound for every denominator) instead of only excluding
+    denominators <= 400.  Deterministic: constants x tolerances down to 2^-50; the simple fraction p0/q0 (q0 > 400) exactly
+    on an end point of the open interval (must not be returned), just inside (must be returned), just outside."""
+    cases = []
+    consts = [math.pi, math.e, 2 ** 0.5, 1 / 3, 0.1, (1 + 5 ** 0.5) / 2, math.pi * 1e-3, 123.456, -math.pi, 0.999999,
+              5e-324 * 2 ** 1000]
+    for x in consts:
+        for tol in (1e-6, 1e-8, 1e-10, 1e-12, 1e-15, 2.0 ** -40, 2.0 ** -50):
+            cases.append({'kind': 'from_float', 'x': float(x).hex(), 'mode': float(tol).hex()})
+    for p0, q0 in ((1, 401), (355, 113 * 7), (500, 997), (-2018, 1009), (3, 4999), (123457, 10 ** 5 + 3)):
+        f0 = F(p0, q0)
+        for e in (F(1, 10 ** 7), F(1, 3 * 10 ** 9), F(7, 2 ** 40)):
+            tiny = e / 10 ** 6
+            for x in (f0 + e, f0 - e, f0 + e - tiny, f0 - e + tiny, f0 + e + tiny, f0):
+                cases.append({'kind': 'approx_rat', 'x': str(x), 'e': str(e)})
+    for _ in range(40 * n):
+        q0 = rng.randint(401, 10 ** 6)
+        f0 = F(rng.randint(-3 * q0, 3 * q0), q0)
+        e = F(1, rng.randint(2 * q0 * q0, 50 * q0 * q0))     # narrower than the gap to any smaller denominator
+        cases.append({'kind': 'approx_rat', 'x': str(f0 + e * F(rng.randint(-999, 999), 1000)), 'e': str(e)})
     return cases
 
 
@@ -833,8 +859,11 @@ MANIFEST = {
     'level_text': 'Proved (all inputs, unbounded): approximate_rational and its integer kernel, re-translated from /repo on '
                   'every run, terminate within lcm(xq, dq) iterations and return the fraction of smallest denominator strictly '
                   'inside the tolerance interval; the executable specification evaluated on every tolerance-mode observation '
-                  '(brute-force search) is sound w.r.t. that definition for results with denominator <= 400 (partial above: '
-                  'only "no denominator <= 400 inside"); the executable binary64 rounding-interval criterion evaluated per '
+                  '(brute-force search up to denominator 400, Farey-neighbour criterion above) accepts a result if and only '
+                  'if it is a fraction of smallest denominator strictly inside the interval, for every denominator (round 6; '
+                  'round 5: sound up to 400, above only "no denominator <= 400 inside"); the hand model of from_float\'s '
+                  'tolerance mode returns that fraction for every tolerance in (0, 1] and rejects tolerances outside [0, 1] '
+                  '(a theorem about the model, not the code); the executable binary64 rounding-interval criterion evaluated per '
                   'float implies Flocq\'s round-to-nearest-even, hence float(from_float(x)) == x given correctly rounded '
                   'int/int; a model of CPython\'s numeric hash (mod 2^61-1) depends only on the rational value and agrees '
                   'with the int / float hash. Tested only (exact correspondence check, implementation = specification on '
